@@ -111,11 +111,16 @@ Definition insert_or_touch (from to : path) : prog (outcome unit) :=
     candidate files in listing order and the entry count. *)
 Record cfile := mkCfile { cf_name : string; cf_mtime : Z; cf_acc : bool }.
 
+Definition dot_prefixed (n : string) : bool :=
+  match n with String c _ => Ascii.eqb c "."%char | EmptyString => false end.
+
 Fixpoint collect_loop (dir : path) (dh : nat) (names : list string) (acc : list cfile) (count : N)
   : prog (outcome (list cfile * N)) :=
   match names with
   | [] => Ret (Ok (rev acc, count))
   | n :: rest =>
+      (* dot-prefixed entries are neither counted nor candidates (repair of F2) *)
+      if dot_prefixed n then collect_loop dir dh rest acc count else
       r <- call1 (CStat (dir ++ [n]) false) ;;
       match r with
       | RStat st =>
